@@ -54,6 +54,11 @@ def rebuild_rule(repo: Repo, rep: Report, rid: str) -> None:
         stores = [n for n in g.nodes if n.kind == "stmt" and any(store_pred(c) for c in ast.walk(n.ast) if isinstance(c, ast.Call))]
         reb = {n.id for n in g.nodes if n.kind == "stmt" and node_calls(n, "_rebuild")}
         ok = bool(stores) and bool(reb) and all(g.must_pass(s.id, g.exit.id, reb) for s in stores)
+        # ... and no normal path skips the store itself (an early return for "unchanged" values loses in-place edits and -0.0 / +0.0)
+        no_skip = bool(stores) and g.must_pass(g.entry.id, g.exit.id, {s.id for s in stores})
+        rep.check(no_skip, rid, f"{fi.key}:always-stores", "every normal path performs the store",
+                  f"{qn} can return without storing the assigned value (early return): an assignment that compares equal but has different bytes "
+                  f"(-0.0 for 0.0, an array edited in place and assigned back) would not reach the union's buffer", fi.loc())
         rep.check(ok, rid, f"{fi.key}:rebuild", "store is followed by _rebuild on every normal path",
                   f"{qn}: a member can be assigned without the union being rebuilt - the other members and the dumped bytes would keep the old value", fi.loc())
         if qn == "UnionProxy.__setattr__":
@@ -167,6 +172,30 @@ def _prefers_param(fi: FuncInfo, attr: ast.AST, p: str) -> bool:
     return False
 
 
+def proxy_cover_rule(repo: Repo, rep: Report, rid: str) -> None:
+    rep.rule(rid, "every nested structure *and union* member is proxied: the condition guarding the UnionProxy construction is true for every "
+                  "Structure subclass (a nested union rebuilds only its own buffer, not the enclosing union's)")
+    from ..boolalg import Formula
+
+    mod = repo.module("types/structure.py")
+    n = 0
+    for fi in mod.functions.values():
+        for st in walk_body(fi.node.body):
+            if isinstance(st, ast.If) and any(isinstance(c, ast.Call) and call_name(c) == "UnionProxy" for s2 in st.body for c in ast.walk(s2)):
+                n += 1
+
+                def interp(e: ast.AST):
+                    if isinstance(e, ast.Call) and call_name(e) == "issubclass" and len(e.args) == 2 and norm(e.args[1]) == "Structure":
+                        return "STRUCT"
+                    return None
+
+                f = Formula(st.test, interp)
+                rep.check("STRUCT" in f.atoms and f.always({"STRUCT": True}, True), rid, f"{fi.key}:proxy-condition", "proxied whenever the member type is a Structure subclass",
+                          f"members are proxied only under '{short(st.test, 70)}': a Structure subclass excluded by that test (e.g. a nested union) is "
+                          f"handed out un-proxied, so assigning through it never rebuilds the enclosing union", fi.loc(st))
+    rep.floor(rid, "proxy conditions", n, 1)
+
+
 def size_rule(repo: Repo, rep: Report, rid: str) -> None:
     rep.rule(rid, "a union has the size of its largest member rounded up to its alignment; dumping pads to len(union) with zeros")
     fi = repo.func("types/structure.py", "UnionMetaType._write")
@@ -184,3 +213,14 @@ def run(repo: Repo, rep: Report, tier: str) -> None:
     proxy_key_rule(repo, rep, "C11.R4")
     size_rule(repo, rep, "C11.R5")
     calculator_rule(repo, rep, "C11.R6")
+    proxy_cover_rule(repo, rep, "C11.R7")
+    rid = "C11.R8"
+    rep.rule(rid, "union operations are history-free: nothing reachable from reading, dumping or rebuilding a union stores state on the union type "
+                  "(a memo of the write order would survive add_field)")
+    from ..callgraph import CallGraph
+    from .c08 import residue_rule
+
+    cg = CallGraph(repo)
+    roots = [f.key for f in repo.all_functions() if f.cls is not None and f.cls.name in ("UnionMetaType", "Union", "UnionProxy")
+             and f.name in ("_read", "_read_fields", "_write", "_rebuild", "_update", "_proxify", "__setattr__", "__call__")]
+    residue_rule(repo, rep, rid, cg, cg.closure(roots), roots)
